@@ -232,11 +232,11 @@ def audit(prop_id, theorems, allowed_axioms=(), modules=None):
     return discharged, problems, assumptions
 
 
-def coqchk(prop_id, timeout=2400):
+def coqchk(prop_id, timeout=2400, modules=None):
     """independent re-check of the compiled property file and everything it depends on (thorough tier)"""
     t = time.time()
     try:
-        rc, out = run(["coqchk", "-o", "-silent", "-Q", os.path.join(COQ, "theories"), "Aplang", "Aplang.Props." + prop_id], timeout, cwd=COQ)
+        rc, out = run(["coqchk", "-o", "-silent", "-Q", os.path.join(COQ, "theories"), "Aplang"] + ["Aplang.Props." + m for m in (modules or [prop_id])], timeout, cwd=COQ)
     except subprocess.TimeoutExpired:
         return {"ok": False, "note": "coqchk timed out"}
     tail = out[-3000:]
